@@ -341,7 +341,7 @@ def r3_cut_agree(c, facts):
         else:
             c.ok(R, {'cycles_check': 'has_changed is set from inbounds before the edges are drained'})
     # remove_edge is applied to the drained edges
-    if P.call_blocks(cyc, 'remove_edge'):
+    if P.call_blocks(cyc, 'remove_edge') or any(P.call_blocks(cl, 'remove_edge') for cl in facts.closures_of(cyc) if cl.mir):
         c.ok(R, {'cycles_check': 'removes the collected incoming edges'})
     else:
         c.bad(R, 'edges-not-removed', 'cycles_check no longer removes the incoming edges of referential definitions (the loop never converges or never cuts)')
